@@ -317,7 +317,7 @@ def derelativize (n origin : Name) : Except NameErr Name :=
   if !isAbs n then concatenate n origin else .ok n
 
 /-- `Name.choose_relativity(origin, relativize)`: `if origin:` — `None` and the empty name leave the name alone -/
-def chooseRelativity (n : Name) (origin : Option Name) (rel : Bool) : Except NameErr Name :=
+def chooseRel (n : Name) (origin : Option Name) (rel : Bool) : Except NameErr Name :=
   match origin with
   | none => .ok n
   | some o => if o = [] then .ok n else if rel then relativize n o else derelativize n o
@@ -330,7 +330,7 @@ def toTextOmit (n : Name) : List Nat :=
 
 /-- `Name.to_styled_text(NameStyle(omit_final_dot, origin, relativize))` without an IDNA codec -/
 def toStyledText (n : Name) (omitDot : Bool) (origin : Option Name) (rel : Bool) : Except NameErr (List Nat) :=
-  match chooseRelativity n origin rel with
+  match chooseRel n origin rel with
   | .error e => .error e
   | .ok m => .ok (if omitDot then toTextOmit m else toText m)
 
